@@ -1031,5 +1031,5 @@ func run13(c drv.Case, res *drv.Result) {
 var _ = hex.EncodeToString
 
 func TestC13(t *testing.T) {
-	drv.Main(t, drv.Driver{ID: "C13", Gen: gen13, Run: run13, CaseTimeout: 10 * time.Minute})
+	drv.Main(t, drv.Driver{ID: "C13", Gen: gen13, Run: run13, CaseTimeout: 30 * time.Minute})
 }
